@@ -4,6 +4,7 @@
     correspondence run of tools/props/c20.py).  Lemmas: EvecSort.v, Disp2Eig.v, Matdyn.v. *)
 From Coq Require Import Ascii String List Arith Bool QArith Reals Permutation.
 From Cij Require Import Ops ROps EvecSortModel EvecSort Disp2EigModel Disp2Eig MatdynModel Matdyn.
+From Cij Require Import EvecPerturb Disp2EigC.
 Import ListNotations.
 
 (* ------------------------------------------------------------------ evec_sort *)
@@ -48,6 +49,93 @@ Theorem evec_sort_dimension_mismatch_rejected :
     @evec_sort R ROps A items target base = None.
 Proof. exact evec_sort_mismatch_rejected_l. Qed.
 
+(* ------------------------------------------------------------------ evec_sort: perturbation => dominance *)
+(** complex numbers are pairs (re, im); [cdot_conj b t] = sum_k conj(b_k) t_k and [cabs] are the
+    model's own functions (EvecSortModel.overlap is built from them); [norm2_c v] = sum_k |v_k|^2;
+    [vadd] / [vscale z] = componentwise sum / multiplication by the complex number z (EvecPerturb.v) *)
+
+(** finite-sum Cauchy-Schwarz for complex vectors of any lengths: |<a, b>| <= ||a|| ||b|| *)
+Theorem cauchy_schwarz_complex :
+  forall a b : list (R * R),
+    (@cabs R ROps (@cdot_conj R ROps a b) <= sqrt (@norm2_c R ROps a) * sqrt (@norm2_c R ROps b))%R.
+Proof. exact cauchy_schwarz. Qed.
+
+(** orthonormal base, permutation sigma, unit phases phi_i, perturbations of Euclidean norm <= eps < 1/2,
+    target[sigma i] = phi_i * base[i] + delta_i  ==>  strict ROW dominance of sigma in the overlap matrix:
+    M[i][sigma i] >= 1 - eps > eps >= M[i][j] for every j <> sigma i *)
+Theorem perturbation_gives_dominance :
+  forall n (base target : list (list (R * R))) (sigma : nat -> nat)
+         (phi : nat -> R * R) (delta : nat -> list (R * R)) (eps : R),
+    length base = n -> length target = n -> perm_on n sigma ->
+    (forall i k, (i < n)%nat -> (k < n)%nat ->
+       @cdot_conj R ROps (nth i base []) (nth k base []) = if (i =? k)%nat then (1, 0)%R else (0, 0)%R) ->
+    (forall i, (i < n)%nat ->
+       (fst (phi i) * fst (phi i) + snd (phi i) * snd (phi i) = 1)%R /\
+       length (delta i) = length (nth i base []) /\
+       (sqrt (@norm2_c R ROps (delta i)) <= eps)%R /\
+       nth (sigma i) target [] = vadd (vscale (phi i) (nth i base [])) (delta i)) ->
+    (eps < 1 / 2)%R ->
+    forall i, (i < n)%nat ->
+      (1 - eps <= ent 0%R (@overlap R ROps base target) i (sigma i))%R /\
+      (eps < 1 - eps)%R /\
+      forall j, (j < n)%nat -> j <> sigma i -> (ent 0%R (@overlap R ROps base target) i j <= eps)%R.
+Proof. exact perturbation_gives_dominance_l. Qed.
+
+(** end to end for the model function on real-number inputs: [evec_sort] accepts and returns
+    items[sigma 0], ..., items[sigma (n-1)] *)
+Theorem evec_sort_recovers_perturbed_permutation :
+  forall (A : Type) (items : list A) n (base target : list (list (R * R))) (sigma : nat -> nat)
+         (phi : nat -> R * R) (delta : nat -> list (R * R)) (eps : R),
+    length items = n -> length base = n -> length target = n ->
+    (forall v, In v (target ++ base) -> length v = n) ->
+    perm_on n sigma ->
+    (forall i k, (i < n)%nat -> (k < n)%nat ->
+       @cdot_conj R ROps (nth i base []) (nth k base []) = if (i =? k)%nat then (1, 0)%R else (0, 0)%R) ->
+    (forall i, (i < n)%nat ->
+       (fst (phi i) * fst (phi i) + snd (phi i) * snd (phi i) = 1)%R /\
+       length (delta i) = length (nth i base []) /\
+       (sqrt (@norm2_c R ROps (delta i)) <= eps)%R /\
+       nth (sigma i) target [] = vadd (vscale (phi i) (nth i base [])) (delta i)) ->
+    (eps < 1 / 2)%R ->
+    @evec_sort R ROps A items target base = Some (map (fun i => nth_error items (sigma i)) (seq 0 n)).
+Proof. exact evec_sort_recovers_perturbed_permutation_l. Qed.
+
+(** the same with phases and perturbations indexed by the target position j and an explicit inverse
+    sinv of sigma:  target[j] = phi_j * base[sinv j] + delta_j *)
+Theorem evec_sort_recovers_perturbed_permutation_by_position :
+  forall (A : Type) (items : list A) n (base target : list (list (R * R))) (sigma sinv : nat -> nat)
+         (phi : nat -> R * R) (delta : nat -> list (R * R)) (eps : R),
+    length items = n -> length base = n -> length target = n ->
+    (forall v, In v (target ++ base) -> length v = n) ->
+    perm_on n sigma -> (forall j, (j < n)%nat -> (sinv j < n)%nat /\ sigma (sinv j) = j) ->
+    (forall i k, (i < n)%nat -> (k < n)%nat ->
+       @cdot_conj R ROps (nth i base []) (nth k base []) = if (i =? k)%nat then (1, 0)%R else (0, 0)%R) ->
+    (forall j, (j < n)%nat ->
+       (fst (phi j) * fst (phi j) + snd (phi j) * snd (phi j) = 1)%R /\
+       length (delta j) = length (nth (sinv j) base []) /\
+       (sqrt (@norm2_c R ROps (delta j)) <= eps)%R /\
+       nth j target [] = vadd (vscale (phi j) (nth (sinv j) base [])) (delta j)) ->
+    (eps < 1 / 2)%R ->
+    @evec_sort R ROps A items target base = Some (map (fun i => nth_error items (sigma i)) (seq 0 n)).
+Proof. exact evec_sort_recovers_perturbed_permutation_inv_l. Qed.
+
+(** 5 % perturbations *)
+Theorem evec_sort_recovers_5pct_perturbation :
+  forall (A : Type) (items : list A) n (base target : list (list (R * R))) (sigma : nat -> nat)
+         (phi : nat -> R * R) (delta : nat -> list (R * R)),
+    length items = n -> length base = n -> length target = n ->
+    (forall v, In v (target ++ base) -> length v = n) ->
+    perm_on n sigma ->
+    (forall i k, (i < n)%nat -> (k < n)%nat ->
+       @cdot_conj R ROps (nth i base []) (nth k base []) = if (i =? k)%nat then (1, 0)%R else (0, 0)%R) ->
+    (forall i, (i < n)%nat ->
+       (fst (phi i) * fst (phi i) + snd (phi i) * snd (phi i) = 1)%R /\
+       length (delta i) = length (nth i base []) /\
+       (sqrt (@norm2_c R ROps (delta i)) <= 5 / 100)%R /\
+       nth (sigma i) target [] = vadd (vscale (phi i) (nth i base [])) (delta i)) ->
+    @evec_sort R ROps A items target base = Some (map (fun i => nth_error items (sigma i)) (seq 0 n)).
+Proof. exact evec_sort_recovers_5pct_l. Qed.
+
 (* ------------------------------------------------------------------ evec_disp2eig *)
 Theorem disp2eig_unit_norm :
   forall (a : list (list R)) (mass : list R) (out : list (list R)),
@@ -72,6 +160,36 @@ Proof.
   - apply restored_orthonormal_l. revert Hg. apply Forall_impl. intros p H; apply H.
 Qed.
 
+(** complex data ([disp2eig_c], rows of pairs (re, im); norm^2 = sum re^2 + im^2) *)
+Theorem disp2eig_c_unit_norm :
+  forall (a : list (list (R * R))) (mass : list R) (out : list (list (R * R))),
+    Forall (fun m => (0 < m)%R) mass ->
+    @disp2eig_c R ROps a mass = Some out ->
+    length out = length a /\
+    forall i, (i < length a)%nat -> (exists x, In x (nth i a []) /\ x <> (0, 0)%R) ->
+      @norm2_c R ROps (nth i out []) = 1%R.
+Proof. exact disp2eig_c_unit_norm_l. Qed.
+
+(** a_i = s_i * M^(-1/2) u_i with complex s_i <> 0 and ||u_i|| = 1 ([displ_c]) gives (s_i/|s_i|) u_i
+    ([restored_c]), of unit norm; and orthonormal u (Hermitian product) gives an orthonormal result *)
+Theorem disp2eig_c_restores_basis :
+  forall (mass : list R) (su : list ((R * R) * list (R * R))),
+    Forall (fun m => (0 < m)%R) mass -> Forall (good_row_c mass) su ->
+    @disp2eig_c R ROps (displ_c mass su) mass = Some (restored_c su) /\
+    (forall i, (i < length su)%nat -> @norm2_c R ROps (nth i (restored_c su) []) = 1%R) /\
+    ((forall i j, (i < length su)%nat -> (j < length su)%nat ->
+        @cdot_conj R ROps (snd (nth i su ((0, 0)%R, []))) (snd (nth j su ((0, 0)%R, [])))
+        = if (i =? j)%nat then (1, 0)%R else (0, 0)%R) ->
+     forall i j, (i < length su)%nat -> (j < length su)%nat ->
+        @cdot_conj R ROps (nth i (restored_c su) []) (nth j (restored_c su) [])
+        = if (i =? j)%nat then (1, 0)%R else (0, 0)%R).
+Proof.
+  intros mass su Hm Hg. split; [|split].
+  - exact (disp2eig_c_restores_l mass su Hm Hg).
+  - exact (restored_c_unit_norm_l mass su Hg).
+  - apply restored_c_orthonormal_l. revert Hg. apply Forall_impl. intros p H; apply H.
+Qed.
+
 Theorem dimension_mismatch_rejected :
   (forall (a : list (list R)) (mass : list R),
      (exists row, In row a /\ length row <> (3 * length mass)%nat) -> @disp2eig R ROps a mass = None) /\
@@ -90,7 +208,14 @@ Print Assumptions greedy_recovers_dominant_perm.
 Print Assumptions sort_result_is_permutation.
 Print Assumptions evec_sort_mat_recovers_R.
 Print Assumptions evec_sort_dimension_mismatch_rejected.
+Print Assumptions cauchy_schwarz_complex.
+Print Assumptions perturbation_gives_dominance.
+Print Assumptions evec_sort_recovers_perturbed_permutation.
+Print Assumptions evec_sort_recovers_perturbed_permutation_by_position.
+Print Assumptions evec_sort_recovers_5pct_perturbation.
 Print Assumptions disp2eig_unit_norm.
 Print Assumptions disp2eig_restores_basis.
+Print Assumptions disp2eig_c_unit_norm.
+Print Assumptions disp2eig_c_restores_basis.
 Print Assumptions dimension_mismatch_rejected.
 Print Assumptions matdyn_roundtrip.
